@@ -1,8 +1,8 @@
 (* Property C10 — LP weights: the weight curve is sane; changes take effect from the next epoch.
    (The "total covers the sum of users' weights" clause: see Props/C10sum.v.)  Statements only; proofs in
    Proofs/WeightProofs.v and Proofs/FarmProofs.v. *)
-From MD.Model Require Import Base Ownable Epoch PoolMath Types PoolManager FarmManager.
-From MD.Proofs Require Import WeightProofs FarmProofs WeightGap.
+From MD.Model Require Import Base Ownable Epoch PoolMath Types PoolManager FarmManager Chain.
+From MD.Proofs Require Import WeightProofs FarmProofs WeightGap Reconcile.
 
 (* closed form: weight = max(floor(amount * m(d) / 10^18), amount), m(d) = floor(d^2 A/DEN) + floor(d B/DEN) + floor(C) *)
 Theorem C10_weight_formula : forall amount dur w,
@@ -57,6 +57,31 @@ Proof. exact update_weights_gap. Qed.
 Example C10_year_multiplier : wmult SECONDS_IN_YEAR = 15999999999999999998.
 Proof. exact wmult_year. Qed.
 
+(* "a user without open positions in an LP token has no weight in it": closing a position, or withdrawing an open one
+   (emergency exit), ends with the reconciliation of the user's state; if he then has no open position left in that LP denom,
+   every weight entry of his for it is gone - his weight is 0 in every epoch, from whatever epoch a computation starts *)
+Theorem C10_no_weight_without_open_positions_after_close : forall w sender funds id olp s' msgs p,
+  close_position w sender funds id olp = Ok (s', msgs) ->
+  sfind pos_id id (fm_positions (w_fm w)) = Some p ->
+  no_open_in s' sender (denom_of (pos_lp p)) ->
+  forall start e, address_weight_at (fm_weights s') sender (denom_of (pos_lp p)) start e = 0.
+Proof. exact close_position_clears. Qed.
+
+Theorem C10_no_weight_without_open_positions_after_withdrawal : forall w sender funds id em s' msgs p,
+  withdraw_position w sender funds id em = Ok (s', msgs) ->
+  sfind pos_id id (fm_positions (w_fm w)) = Some p -> pos_open p = true ->
+  no_open_in s' sender (denom_of (pos_lp p)) ->
+  forall start e, address_weight_at (fm_weights s') sender (denom_of (pos_lp p)) start e = 0.
+Proof. exact withdraw_position_clears. Qed.
+
+Theorem C10_reconciliation_clears_the_weight_history : forall w s recv lp s',
+  reconcile_user_state w s recv lp = Ok s' ->
+  forallb (fun p => negb (String.eqb (denom_of (pos_lp p)) lp)) (positions_by_receiver s recv true) = true ->
+  (forall e, w_get (fm_weights s') (mkw recv lp e) = None) /\
+  latest_weight (fm_weights s') recv lp = 0 /\
+  forall start e, address_weight_at (fm_weights s') recv lp start e = 0.
+Proof. exact reconcile_clears_weights. Qed.
+
 Print Assumptions C10_weight_formula.
 Print Assumptions C10_weight_at_least_amount.
 Print Assumptions C10_weight_at_most_16x.
@@ -65,3 +90,6 @@ Print Assumptions C10_weight_monotone_in_duration.
 Print Assumptions C10_changes_take_effect_next_epoch.
 Print Assumptions C10_year_multiplier.
 Print Assumptions C10_total_and_user_move_together_unless_a_subtraction_saturates.
+Print Assumptions C10_no_weight_without_open_positions_after_close.
+Print Assumptions C10_no_weight_without_open_positions_after_withdrawal.
+Print Assumptions C10_reconciliation_clears_the_weight_history.
